@@ -252,7 +252,13 @@ func New(c *config.Config) (*Olric, error) {
 }
 
 func (db *Olric) preconditionFunc(conn redcon.Conn, _ redcon.Command) bool {
-	err := db.isOperable()
+	// Reply with the routing table's own error values. Only those are registered with a
+	// protocol prefix (CLUSTERQUORUM); the public alias returned by isOperable would be
+	// written as a generic ERR and a client could not map it back to ErrClusterQuorum.
+	err := db.rt.CheckMemberCountQuorum()
+	if err == nil {
+		err = db.rt.CheckBootstrap()
+	}
 	if err != nil {
 		protocol.WriteError(conn, err)
 		return false
